@@ -262,9 +262,11 @@ CHECKS = {
              "theorem over successive timer expiries: a potential (2 per request that may still write or awaits an ACK, 1 "
              "per other running request) never grows under task steps once the API has no uart and drops with every timer "
              "expiry while a request runs, so after at most two expiries per request every request has ended "
-             "(C20_loss_requests_end_with_their_timers, C20_timer_expiry_makes_progress).",
-        note=Q + "; the theorems about successive events take quiescence of the event loop (`ready = []`) between events as a "
-             "hypothesis (the model's granularity; its sufficiency of `settle`'s fuel is not proved)",
+             "(C20_loss_requests_end_with_their_timers, C20_timer_expiry_makes_progress). The event loop of the model comes to "
+             "rest after every event of every history (C20_loop_comes_to_rest: a measure drops with every task run and the "
+             "fuel given to the run covers it), so none of these theorems carries a quiescence hypothesis.",
+        note=Q + "; that the model's loop is at rest after every event of every history is itself a theorem "
+             "(C20_loop_comes_to_rest)",
         design="7/C20, 12.1"),
 }
 
